@@ -16,7 +16,7 @@ pub fn prop() -> Prop {
     Prop {
         id: "C14",
         level: "exploration",
-        rule: "complete tables: each of the 7 builtins x a 70-value alphabet covering every type (null, both bools, boundary integers, floats incl. signed zero, tiny, huge, infinities and NaN, numeric / padded / signed / exponent / empty / non-ASCII text, empty and nested arrays, named and anonymous functions) with 1 argument; x a 12-value subset squared and cubed with 2 and 3 arguments; with no argument; identity t(v) for v of type t; round trips int(string(i)) for every i of the integer lattice and float(string(x)) for every float of the alphabet and every lattice integer below 2^53; digit patterns (every integer to 20 000, every number of up to 18 digits with at most three non-zero digits from {1, 9}, every a*10^k + b, sums of tenths, integers just above 2^53..2^59, 26 awkward number texts x 6 builtins, nested arrays with quotes / braces / integral floats, arguments containing placeholders); every decimal text i.ff (i <= 20), d.fff, and k/100, k*1.1 (k <= 2000) through string() and back; magnitude ladders (floats m x 10^k for |k| <= 40 and m x 2^k for |k| <= 70, integers 10^k and neighbours, digit strings of 1..24 digits, print with N placeholders for N up to 253 and N-1 / N / N+1 arguments); print with every format string of <= 4 pieces over {{}, {, }, a, space, é, €, 😀} x 0..4 further arguments drawn from 5 values, and with a first argument of every type. Oracle: the reference functions of the model (U11 leniency for non-canonical number spellings). Non-trivial = the model defines the outcome; distinct = distinct texts",
+        rule: "complete tables: each of the 7 builtins x a 70-value alphabet covering every type (null, both bools, boundary integers, floats incl. signed zero, tiny, huge, infinities and NaN, numeric / padded / signed / exponent / empty / non-ASCII text, empty and nested arrays, named and anonymous functions) with 1 argument; x a 12-value subset squared and cubed with 2 and 3 arguments; with no argument; identity t(v) for v of type t; round trips int(string(i)) for every i of the integer lattice and float(string(x)) for every float of the alphabet and every lattice integer below 2^53; digit patterns (every integer to 20 000, every number of up to 18 digits with at most three non-zero digits from {1, 9}, every a*10^k + b, sums of tenths, integers just above 2^53..2^59, 26 awkward number texts x 6 builtins, nested arrays with quotes / braces / integral floats, arguments containing placeholders); every decimal text i.ff (i <= 20), d.fff, and k/100, k*1.1 (k <= 2000) through string() and back; magnitude ladders (floats m x 10^k for |k| <= 40 and m x 2^k for |k| <= 70, integers 10^k and neighbours, digit strings of 1..24 digits, print with N placeholders for N up to 253 and N-1 / N / N+1 arguments); print with every format string of <= 4 pieces over {{}, {, }, a, space, é, €, 😀} x 0..4 further arguments drawn from 5 values, and with a first argument of every type. Oracle: the reference functions of the model (U11 leniency for non-canonical number spellings). Non-trivial = the model defines the outcome; distinct = distinct texts; long texts that are not numbers with a 2-, 3- or 4-byte character across every byte offset 1..140 and around 255 / 256 / 512 / 1000 / 1024 / 3000 / 4096 (thorough: every offset to 1 100 and more), behind letters, digits and wide characters, through every builtin and by index from the end; where U11 leaves the ANSWER open a crash or contract breach is still a violation",
         assumptions: &["reference builtins of refint.rs (DESIGN 4.2 Builtins)", "U11: non-canonical number spellings (padding, +5, 1e5, inf, nan) are not compared"],
         run,
         replay,
@@ -93,6 +93,15 @@ fn case(sh: &mut Shard, family: &str, body: Vec<Stmt>) {
     if let Some(r) = differential(sh, family, &prog, opts()) {
         if !matches!(r.model.end, End::Unspec(_) | End::Diverge) {
             sh.nontrivial(&printer::program(&prog));
+        }
+        // where the documentation leaves the ANSWER open (U11: which spellings of a number `int` / `float` accept)
+        // the builtin must still come back: a value or an error, never a crash
+        if matches!(r.model.end, End::Unspec(_)) {
+            if let crate::outcome::ImplEnd::Panic(p) | crate::outcome::ImplEnd::Breach(p) = &r.imp.end {
+                let text = printer::program(&prog);
+                let d = crate::common::describe(&text, &r.model, &r.imp);
+                sh.violation(family, d, format!("a builtin crashed where only its answer is left open: {p}"));
+            }
         }
         if sh.index() % 20_011 == 0 {
             sh.sample(json!({"family": family, "program": printer::program(&prog), "model": model_end_text(&r.model.end), "output": r.model.output}));
@@ -212,9 +221,48 @@ fn words_as_texts(sh: &mut Shard) {
     }
 }
 
+/// Long texts that are not numbers, with a wide character across every byte offset: whatever a builtin does with
+/// the text it was given (measure it, convert it, quote it in its refusal) it does by character. A 2-, 3- or
+/// 4-byte character starts 1 byte before every offset 1..=140 and around 255 / 256 / 512 / 1000 / 1024 / 3000 /
+/// 4096 (thorough: every offset to 1 100), behind letters, behind digits and behind other wide characters.
+fn long_mixed_texts(sh: &mut Shard) {
+    let mut offsets: Vec<usize> = (1..=140).collect();
+    for c in [255usize, 256, 512, 1000, 1024, 3000, 4096] {
+        offsets.extend(c - 2..=c + 2);
+    }
+    if sh.cfg.tier != Tier::Quick {
+        offsets.extend(141..=1100);
+        offsets.extend(2990..=3010);
+        offsets.extend([6000usize, 8191, 8192, 8193, 9000, 10007, 12000, 65535, 65536, 65537]);
+    }
+    offsets.sort();
+    offsets.dedup();
+    for &p in &offsets {
+        for wide in ["é", "日", "😀"] {
+            for (fill, fw) in [("x", 1usize), ("1", 1), ("ß", 2)] {
+                // the wide character starts at byte p - 1 (so that it lies across byte offset p)
+                let lead = p - 1;
+                let mut t = fill.repeat(lead / fw);
+                t.push_str(&"x".repeat(lead % fw));
+                t.push_str(wide);
+                t.push_str("yz");
+                t.push_str(wide);
+                for b in BUILTINS {
+                    if p > 300 && b == "print" {
+                        continue;
+                    }
+                    case(sh, "long-mixed-texts", vec![es(calln(b, vec![string(&t)]))]);
+                }
+                case(sh, "long-mixed-texts", vec![let_("t", string(&t)), es(array(vec![calln("lengte", vec![id("t")]), index(id("t"), int_lit(-1)), index(id("t"), int_lit(-4)), calln("int", vec![index(id("t"), int_lit(-2))])]))]);
+            }
+        }
+    }
+}
+
 fn run(sh: &mut Shard) {
     LEDGER.with(|c| c.set(false));
     words_as_texts(sh);
+    long_mixed_texts(sh);
     padded_number_texts(sh);
     run_tables(sh);
     LEDGER.with(|c| c.set(true));
